@@ -66,7 +66,30 @@ def returned_dict(fi: FuncInfo) -> Optional[ast.Dict]:
                 defs = cfg.reaching(cfg.node_for(st), v.id)
                 ds = [d.value for d in defs if isinstance(d.value, ast.Dict)]
                 if len(ds) == 1 and len(defs) == 1:
-                    return ds[0]
+                    # the literal, plus unconditional `name["k"] = value` stores made before the return (a dict built key by key)
+                    keys, vals = list(ds[0].keys), list(ds[0].values)
+                    stores = [x for x in fi.body if isinstance(x, ast.Assign) and len(x.targets) == 1 and isinstance(x.targets[0], ast.Subscript)
+                              and isinstance(x.targets[0].value, ast.Name) and x.targets[0].value.id == v.id and isinstance(x.targets[0].slice, ast.Constant)]
+                    if not stores:
+                        return ds[0]
+                    for x in stores:
+                        k = x.targets[0].slice.value
+                        have = [i for i, kk in enumerate(keys) if isinstance(kk, ast.Constant) and kk.value == k]
+                        if have:
+                            vals[have[0]] = x.value
+                        else:
+                            keys.append(x.targets[0].slice)
+                            vals.append(x.value)
+                    return ast.copy_location(ast.Dict(keys=keys, values=vals), ds[0])
+                if len(defs) == 1 and isinstance(defs[0].value, ast.Call) and norm(defs[0].value.func) == "dict" and not defs[0].value.args:
+                    keys = [ast.Constant(value=k.arg) for k in defs[0].value.keywords]
+                    vals = [k.value for k in defs[0].value.keywords]
+                    for x in fi.body:
+                        if isinstance(x, ast.Assign) and len(x.targets) == 1 and isinstance(x.targets[0], ast.Subscript) and isinstance(x.targets[0].value, ast.Name) \
+                                and x.targets[0].value.id == v.id and isinstance(x.targets[0].slice, ast.Constant):
+                            keys.append(x.targets[0].slice)
+                            vals.append(x.value)
+                    return ast.copy_location(ast.Dict(keys=keys, values=vals), defs[0].value)
     return None
 
 
